@@ -15,8 +15,15 @@ Pairs == {<<[f |-> f, v |-> v], [f |-> g, v |-> w]>> : f \in {"SizeOfHeaders", "
                                                        g \in {"dd4.VirtualAddress", "sec1.PointerToRawData", "dd4.Size", "NumberOfSections"}, w \in {"0", "FILELEN", "HUGE", "9"}}
 CertEnd == {<<[f |-> "dd4.Size", v |-> v]>> : v \in {"DWLEN", "DWLEN+1", "DWLEN+3", "DWLEN+7", "DWLEN-1", "13", "16", "17"}}      \* table ends inside / right after the last entry, before its padding
 Trunc == {<<[f |-> "truncate", v |-> v]>> : v \in {"0", "1", "63", "64", "96", "HALF", "FILELEN-1", "SOH", "SOH-1", "CERT", "CERT+8", "CERT+9"}}
+(* certificate types x small lengths: an entry of another WIN_CERTIFICATE type (0x0EF1 = EFI_GUID, 1 = X.509, 0x0EF0 = PKCS1) whose body is *)
+(* shorter than that type's own header                                                                                                     *)
+Al8 == [d \in {"8", "9", "16", "23", "24", "25", "40"} |-> CASE d = "8" -> "8" [] d \in {"9", "16"} -> "16" [] d \in {"23", "24"} -> "24" [] d = "25" -> "32" [] OTHER -> "40"]
+CertKinds == {<<[f |-> "cert0.wCertificateType", v |-> t], [f |-> "cert0.dwLength", v |-> d]>> : t \in {"3825", "3824", "2", "1"}, d \in {"8", "9", "16", "23", "24", "25", "40"}}
+             \* ... and the same with the table (and the file) ending right behind that one entry
+             \cup {<<[f |-> "cert0.wCertificateType", v |-> t], [f |-> "cert0.dwLength", v |-> d], [f |-> "dd4.Size", v |-> Al8[d]], [f |-> "truncate", v |-> "CERT+" \o Al8[d]]>> :
+                      t \in {"3825", "3824", "2", "1"}, d \in {"8", "9", "16", "23", "24", "25", "40"}}
 Alias == {<<[f |-> "sections.alias", v |-> v]>> : v \in {"1", "2", "16", "200", "1500"}}   \* that many further section headers claim the raw data of section 0
-Init == done = FALSE /\ \E b \in Bases, o \in Single \cup Trunc \cup CertEnd \cup Alias \cup (IF Tier = "t" THEN Pairs ELSE {p \in Pairs : p[1].v = "HUGE" \/ p[2].v = "HUGE"}) :
+Init == done = FALSE /\ \E b \in Bases, o \in Single \cup Trunc \cup CertEnd \cup CertKinds \cup Alias \cup (IF Tier = "t" THEN Pairs ELSE {p \in Pairs : p[1].v = "HUGE" \/ p[2].v = "HUGE"}) :
            cfg = [base |-> b, overrides |-> o]
 Next == ~done /\ done' = TRUE /\ UNCHANGED cfg
 Emit == done => PrintT(ToJson(cfg))
